@@ -421,7 +421,8 @@ def run_check(pid, tier):
                         violations.append(({'property': pid, 'broken': 'property', 'what': 'well-formed definition does not compile: ' + f['stderr'][-400:],
                                             'dsl': f['dsl'], 'feature': f['feature']}, True))
             for f in t4r['probe_failures']:
-                if f['kind'] in fams or (f['kind'] in ('method', 'types', 'new', 'accessor') and 'method' in fams):
+                if f['kind'] in fams or (f['kind'] in ('method', 'types', 'new', 'accessor') and 'method' in fams) or \
+                        (f['kind'] == 'method' and 'hier-method' in fams and 'superstate' in f['dsl']):
                     violations.append(({'property': pid, 'broken': 'property',
                                         'what': f"{f['what']}: expected {f['expected']}, rustc says {f['got']}", 'dsl': f['dsl'],
                                         'probe_kind': f['kind']}, True))
